@@ -538,9 +538,16 @@ class Interp:
         if m:
             fields = [a.split(': ', 1)[1] for a in split_top(m.group(2))]
             return s.make_adt(frame, m.group(1).strip(), [s.operand(frame, a) for a in fields], braces=True)
-        m = re.match(r'^([^(]+)\((.*)\)$', txt)
-        if m:
-            return s.make_adt(frame, m.group(1).strip(), [s.operand(frame, a) for a in split_top(m.group(2))])
+        if txt.endswith(')') and not txt.startswith('ShallowInitBox'):
+            d = 0; k = None
+            for i in range(len(txt) - 1, -1, -1):
+                ch = txt[i]
+                if ch == ')': d += 1
+                elif ch == '(':
+                    d -= 1
+                    if d == 0: k = i; break
+            if k:
+                return s.make_adt(frame, txt[:k].strip(), [s.operand(frame, a) for a in split_top(txt[k + 1:-1])])
         m = re.match(r'^ShallowInitBox\((.*), .*\)$', txt)
         if m: return s.operand(frame, m.group(1))
         if re.match(r'^[\w:<>, &\[\];\']+$', txt):
@@ -555,10 +562,13 @@ class Interp:
             if re.search(pat, p):
                 r = model(s, frame, p, fields)
                 if r is not NotImplemented: return r
-        # enum variant?  std enums by name; crate enums via the enum table
-        full2 = '::'.join(p.split('::')[-2:])
-        if last in ('Some', 'None', 'Ok', 'Err', 'Continue', 'Break', 'Less', 'Equal', 'Greater') or full2 in s.enum_discr or (last in s.enum_discr and not braces and last[0].isupper() and '::' in p and p.split('::')[-2][0].isupper()):
-            return Enum('::'.join(p.split('::')[:-1]), last if full2 not in s.enum_discr else full2, fields)
+        # enum variant: `path::Type::Variant` (both capitalised); everything else is a struct
+        segs = p.split('::')
+        full2 = '::'.join(segs[-2:])
+        if len(segs) >= 2 and re.match(r'^[A-Z]', segs[-2]) and re.match(r'^[A-Z]', last):
+            return Enum('::'.join(segs[:-1]), full2 if full2 in s.enum_discr else last, fields)
+        if last in ('Some', 'None', 'Ok', 'Err'):
+            return Enum('::'.join(segs[:-1]), last, fields)
         return Agg(p, fields)
 
     def discriminant(s, v):
@@ -812,8 +822,8 @@ class Interp:
                         val = s.call(fr, fn, args2, s.place_type(fr, loc, pr))
                     f, l, p = s.resolve(fr, loc, pr); s.write(f, l, p, val)
                     nxt = ret; break
-                m = re.match(r'^(.*?) = (.*)\) -> (?:unwind .*|\[.*\])$', st)
-                if m and 'unwind' in st and 'return:' not in st:
+                m = re.match(r'^(.*?) = (.*)\) -> (?:unwind .*|bb\d+|\[.*\])$', st)
+                if m and 'return:' not in st:
                     # diverging call (panic helpers)
                     raise Panic('diverging call: ' + m.group(2)[:120])
                 m = re.match(r'^(.*?) = (.*)$', st)
